@@ -31,3 +31,7 @@ pub fn __cow_owned(x: Vec<u8>) -> (r: Vec<u8>) ensures r@ == x@ { x }
 pub assume_specification<T> [<[T]>::to_vec] (s: &[T]) -> (r: std::vec::Vec<T>)
     where T: core::clone::Clone
     ensures r@ == s@;
+pub assume_specification [String::as_bytes] (s: &String) -> (r: &[u8]) ensures r@ == encode_utf8(s@);
+// R19: `Cow<[u8]> == &[u8]` (Cow is modelled as Vec<u8>, R18) compares the byte contents
+#[verifier::external_body]
+pub fn __cow_eq_slice(a: Vec<u8>, b: &[u8]) -> (r: bool) ensures r == (a@ == b@) { &a[..] == b }
